@@ -49,22 +49,29 @@ def make(debug, cells=None):
     P.set_function('INNERFAIL', inner_fail)
     P.set_function('INNEROK', inner_ok)
 
-    def cells(cell, setter):
+    def cell_listener(cell, setter):
         k = cell.label.replace('$', '')
         if k == 'Z9':
             raise KeyError('listener failure')
         if k in cells:
             setter(cells[k])
-    P.on('callCellValue', cells)
-    P.on('callRangeValue', lambda s, e, setter: setter(copy.deepcopy(RANGE)))
+        elif k[:1] in 'FGH':
+            setter(cell.row.index * 100 + cell.col.index)       # columns F-H answer from the coordinates handed over
+    P.on('callCellValue', cell_listener)
+    P.on('callRangeValue', lambda s, e, setter: setter(copy.deepcopy(RANGE) if s.col.index < 5 else [s.row.index, s.col.index, e.row.index, e.col.index]))
     return P
 
 
 def quiet_parse(P, text):
-    if P.debug:
-        with contextlib.redirect_stderr(io.StringIO()):
-            return P.parse(text)
-    return P.parse(text)
+    # an exception escaping from parse() is an outcome of its own kind here (it differs from every record), so that e.g.
+    # "raises with debug on, returns a record with debug off" shows up as the difference it is
+    try:
+        if P.debug:
+            with contextlib.redirect_stderr(io.StringIO()):
+                return P.parse(text)
+        return P.parse(text)
+    except Exception as e:
+        return {'result': None, 'error': 'RAISED ' + type(e).__name__}
 
 
 leaf = st.one_of(st.sampled_from(['1', '2', '7']).map(lambda s: ['num', s]), st.just(['dec', '0.5']), st.sampled_from(['v_a', 'v_s', 'v_l', 'TRUE']).map(lambda n: ['var', n]),
@@ -83,7 +90,7 @@ def trees(extra_calls=()):
 
 valid = trees()
 failing = st.one_of(
-    st.sampled_from(['1+', '((2)', 'SUM(1,', '2(6+2)', '"open', "1 2", '}{', ')', 'A1:', '1..2', '~', '@x', '1 ~ 2', 'é+1', '\x00',               # syntax / lexical errors
+    st.sampled_from(['1+', '((2)', 'SUM(1,', '2(6+2)', '"open', "1 2", '}{', ')', 'A1:', '1..2', '~', '@x', '1 ~ 2', 'é+1', '\x00', '"\ud800"+', '"é"+', 'NOSUCH("\udc80")', '日本+', 'SUM(H8:F6)', 'MAX(g7:F9)+', 'H8:F6',  # syntax / lexical errors, reversed ranges
                      '1/0', 'v_s+1', 'nosuch', 'NOSUCH(1)', 'SUM(v_e)', 'v_e', 'INDEX(v_l,9)', 'SQRT(-1)', 'IF()', 'LEFT(1)', 'MAX("a")',                # run-time errors
                      '#N/A', '1+#REF!', '#GETTING_DATA', '#NULL!',                                                                                       # error literals
                      'BOOM(1)', '1+BOOM(2)*3', 'XBOOM()', 'SUM(1,XBOOM())', 'Z9', 'Z9+1', 'IFERROR(BOOM(),1)', 'CONCATENATE(1/0)', 'IFERROR(CONCATENATE(1/0),1)',  # raising callbacks
@@ -144,7 +151,12 @@ def check_history(case):
                                     enc(g['result']) if g['error'] is None else g['error'], enc(w['result']) if w['error'] is None else w['error'])
         else:
             quiet_parse(P, h)
-        # names that were only ever registered on the other parser object stay unknown here (a fixed fact: no reference parser involved)
+        # fixed facts (no reference parser involved): cells of columns F-H are answered from their coordinates
+        for p, w in (('F6', 505), ('H8', 707), ('G7+0', 606), ('SUM(F6:H8)', 5 + 5 + 7 + 7), ('SUM(H8:F6)', 24)):
+            g = quiet_parse(P, p)
+            if g['error'] is not None or g['result'] != w:
+                raise Violation('after the history %r the parser evaluates %r to %r; its listener answers from the coordinates of the reference, which give %r' % (case['history'][:step + 1], p, g, w), g['error'] or enc(g['result']), w)
+        # names that were only ever registered on the other parser object stay unknown here
         for p in ('EXTRA(1)', 'v_other'):
             g = quiet_parse(P, p)
             if g['error'] != '#NAME?':
